@@ -125,6 +125,22 @@ func (c *SimConn) CommitCodes() []int {
 	return out
 }
 
+// ClientView is the header block as a client reads it: net/http writes the map's keys as they are, in sorted
+// order, and the reader folds every spelling of a name into its canonical form, appending the values.
+func ClientView(h http.Header) http.Header {
+	keys := make([]string, 0, len(h))
+	for k := range h {
+		keys = append(keys, k)
+	}
+	sort.Strings(keys)
+	out := http.Header{}
+	for _, k := range keys {
+		ck := http.CanonicalHeaderKey(k)
+		out[ck] = append(out[ck], h[k]...)
+	}
+	return out
+}
+
 // HeaderString renders selected headers canonically.
 func HeaderString(h http.Header) string {
 	var keys []string
